@@ -28,9 +28,14 @@ TQuery == /\ l <= Len(Tr) /\ Ev.e = "query"
                     \cup (IF "vsbatch" \in DOMAIN Ev /\ Ev.vsbatch # "eq" THEN {"C09:alone-equals-inside-array"} ELSE {})
              IN  fails' = Add(f) /\ seen' = seen \cup {key}
           /\ l' = l + 1 /\ tid' = tid
+(* a query at a point where the code documents a fall-back (curvature / impingement where the precipitate is not stable): its own answer is
+   not judged, but it is part of the history every later answer must be independent of, and it may not modify its arguments either *)
+TAside == /\ l <= Len(Tr) /\ Ev.e = "aside"
+          /\ fails' = Add(IF ~Ev.argintact THEN {"C09:arguments-not-modified"} ELSE {}) /\ UNCHANGED seen
+          /\ l' = l + 1 /\ tid' = tid
 TClear == /\ l <= Len(Tr) /\ Ev.e = "clear" /\ UNCHANGED <<seen, fails>> /\ l' = l + 1 /\ tid' = tid
 TExc == /\ l <= Len(Tr) /\ Ev.e = "exception" /\ fails' = Add({"C09:no-internal-error"}) /\ UNCHANGED seen /\ l' = l + 1 /\ tid' = tid
-TNext == TQuery \/ TClear \/ TExc
+TNext == TQuery \/ TAside \/ TClear \/ TExc
 TSpec == TInit /\ [][TNext]_vars
 Reached == TLCSet(tid, IF TLCGet(tid).l > l THEN TLCGet(tid) ELSE [l |-> l, fails |-> fails])
 Report == JsonSerialize(IOEnv.OUTF, [i \in 1..NT |-> TLCGet(i)])
